@@ -179,8 +179,10 @@ def _unloaded(name: str) -> typing.Iterable[None]:
 
     original = {}
     _walkup(name, rmmod)
-    yield
-    sys.modules.update(original)
+    try:
+        yield
+    finally:  # also when the import under the context fails (i.e. an optional component that does not exist)
+        sys.modules.update(original)
 
 
 def search(*paths: typing.Union[str, pathlib.Path]) -> None:
@@ -209,8 +211,10 @@ def _searched(*paths: typing.Union[str, pathlib.Path]) -> typing.Iterable[None]:
     """
     original = list(sys.path)
     search(*paths)
-    yield
-    sys.path = original
+    try:
+        yield
+    finally:
+        sys.path = original
 
 
 def isolated(name: str, path: typing.Optional[typing.Union[str, pathlib.Path]]) -> types.ModuleType:
@@ -246,11 +250,13 @@ def context(module: types.ModuleType) -> typing.Iterable[None]:
     """
     sys.meta_path[:0] = finders = Finder.create(module)
     with _unloaded(module.__name__):
-        yield
-        finders = set(finders)
-        sys.meta_path = [f for f in sys.meta_path if f not in finders]
-        if module.__name__ in sys.modules:
-            del sys.modules[module.__name__]
+        try:
+            yield
+        finally:
+            finders = set(finders)
+            sys.meta_path = [f for f in sys.meta_path if f not in finders]
+            if module.__name__ in sys.modules:
+                del sys.modules[module.__name__]
 
 
 def load(
